@@ -129,7 +129,16 @@ def report(prop, tier, seed_, t, *, records, trace_module, mc_stats, rule, sampl
     Validates, handles known findings, prints VIOLATION lines, writes evidence."""
     bad = common.validate_records(records, trace_module)
     log(f"[{prop}] trace validation: {len(records)} records, {len(bad)} with verdicts ({t():.0f}s)")
-    st = selftest(records, bad) if selftest else None
+    st = None
+    if selftest:
+        try:
+            st = selftest(records, bad)
+        except StopIteration:
+            # nothing suitable among the accepted records (typical when most records are rejected): the
+            # rejections below are reported; without any rejection the self-test is mandatory
+            if not any(c.startswith(prop + ":") for cl in bad.values() for c in cl):
+                raise MachineryError(f"{prop} binding self-test found no accepted record to corrupt")
+            st = {"skipped": "no accepted record suitable for corruption in a run with rejections"}
     known = [k for k in common.load_known() if k["property"] == prop and k.get("status") == "open"]
     byrid = {r["rid"]: r for r in records}
     known_hits = Counter()
